@@ -90,7 +90,7 @@ inductive Res (β : Type) where
   | ok (b : β)
   | err (e : VErr)
   | panic (site : String)
-  deriving Repr
+  deriving Repr, DecidableEq
 
 namespace Res
 def bind {β γ : Type} : Res β → (β → Res γ) → Res γ
@@ -246,7 +246,7 @@ def interpolateWithOffset (F : FOps α) (evals : List α) : List α :=
 /-- `set_remainder` -/
 def setRemainder (F : FOps α) (o : Opts) (evals : List α) : Res (List α) :=
   if 2 ^ Nat.log2 evals.length ≠ evals.length ∨ evals.length = 0 then .panic "get_inv_twiddles"
-  else if evals.length ≠ 1 ∧ !F.rootOk (Nat.log2 evals.length) then .panic "get_inv_twiddles"
+  else if !F.rootOk (Nat.log2 evals.length) then .panic "get_inv_twiddles.get_root_of_unity"
   else .ok ((interpolateWithOffset F evals).take (evals.length / o.blowup))
 
 /-- the layers built by the loop of `build_layers`: (layers, final evaluations, remaining alphas) -/
